@@ -106,6 +106,18 @@ template <class T> struct Acc<tbb::combinable<T>> {
     }
 };
 
+template <class C> struct Convert { template <class F> static void run(C&, F) {} };
+template <class T, class A> struct Convert<tbb::enumerable_thread_specific<T, A, tbb::ets_no_key>> {
+    template <class F> static void run(tbb::enumerable_thread_specific<T, A, tbb::ets_no_key>& c, F f) {
+        tbb::enumerable_thread_specific<T, A, tbb::ets_key_per_instance> conv(c); f(conv, "a converting copy (to ets_key_per_instance)");
+    }
+};
+template <class T, class A> struct Convert<tbb::enumerable_thread_specific<T, A, tbb::ets_key_per_instance>> {
+    template <class F> static void run(tbb::enumerable_thread_specific<T, A, tbb::ets_key_per_instance>& c, F f) {
+        tbb::enumerable_thread_specific<T, A, tbb::ets_no_key> conv(c); f(conv, "a converting copy (to ets_no_key)");
+    }
+};
+
 struct Phase { char kind; std::vector<std::pair<int, int>> who; };      // L: (thread, n)...; others: (thread, 0)
 static std::string g_kind = "nokey";
 static int g_T = 0;
@@ -196,13 +208,18 @@ template <class C> static bool run_once(
         case 'M': { C tmp(std::move(*cont)); *cont = std::move(tmp); } { Guard g; out.push_back("op m " + std::to_string(t)); } break;
         case 'X': { { C fresh; *cont = std::move(fresh); } Guard g; new_generation(); out.push_back("op x " + std::to_string(t)); } break;
         case 'Y': {
-            C copy(*cont);
-            std::set<int> owners; size_t n2 = 0;
-            Acc<C>::each(copy, [&](Elem& e) { owners.insert(e.owner); n2++; });
-            Guard g;
-            if (n2 != users() || owners.size() != n2) fail("a copy of the container has " + std::to_string(n2) + " elements (" + std::to_string(owners.size()) + " distinct owners) for " + std::to_string(users()) + " threads");
-            for (int o : owners) if (o < 0 || o >= (int)T || accessed[o] != g_gen) fail("a copy of the container holds an element of thread " + std::to_string(o) + " which has no element");
-            out.push_back("op y " + std::to_string(t));
+            // every way of copying: copy construction, copy assignment into a used container, and (ETS) the converting copy into the other key flavour
+            auto check_copy = [&](auto& copy, const char* how) {
+                std::set<int> owners; size_t n2 = 0;
+                Acc<typename std::decay<decltype(copy)>::type>::each(copy, [&](Elem& e) { owners.insert(e.owner); n2++; });
+                Guard g;
+                if (n2 != users() || owners.size() != n2) fail(std::string(how) + " of the container has " + std::to_string(n2) + " elements (" + std::to_string(owners.size()) + " distinct owners) for " + std::to_string(users()) + " threads");
+                for (int o : owners) if (o < 0 || o >= (int)T || accessed[o] != g_gen) fail(std::string(how) + " of the container holds an element of thread " + std::to_string(o) + " which has no element");
+            };
+            { C copy(*cont); check_copy(copy, "a copy"); }
+            { C other; other = *cont; check_copy(other, "a copy-assigned container"); }
+            Convert<C>::run(*cont, check_copy);
+            { Guard g; out.push_back("op y " + std::to_string(t)); }
         } break;
         }
     };
